@@ -1,4 +1,5 @@
 """Generator of data-path terms guided by the document (so that most paths select something)."""
+from .valgen import copy_value
 from .pathterms import Prim, MapT, ListT, MolT, PathT, lit, cnd
 from .terms import Leaf, Null, Bin
 
@@ -34,6 +35,13 @@ class PathGen:
         """A part term likely to apply to `node`."""
         r = self.r
         k = r.random()
+        if r.random() < 0.05:
+            # a map-or-list part given the same value as key and as index (what DataPath(1) builds, but for any value)
+            pool = [0, 1, 1.0, 0.0, True, "a", None, {}, [1], 2.5, -1]
+            if isinstance(node, dict):
+                pool += [x for x in list(node.keys())[:3]]
+            v = r.choice(pool)
+            return MolT(key=lit(copy_value(v)), index=lit(copy_value(v)))
         if isinstance(node, dict) and node:
             keys = list(node.keys())
             if k > explicit_p:
